@@ -54,18 +54,17 @@ def run_py(cfg, hist) -> List[Any]:
             emu._scheduler.reset(cycle_base=cyc)
             out.append({"next_mti": emu._scheduler.next_mti, "next_sti": emu._scheduler.next_sti, "cycle": cyc})
         elif kind == "snap":
-            s = emu._scheduler
-            saved = {"enabled": s.enabled, "mti_period": s.mti_period, "sti_period": s.sti_period,
-                     "next_mti": s.next_mti, "next_sti": s.next_sti}
-            isr = emu.memory.read_byte(ISR_ADDR)
-            emu = _mk_py(saved["mti_period"], saved["sti_period"], True)
-            # the steps PCE500Emulator.load_snapshot performs on its scheduler
+            # the real save_snapshot -> fresh emulator -> load_snapshot path
+            import contextlib
+            import io
+            import os
+            path = f"/verif/.build/snap/c13_{os.getpid()}.pcsnap"
+            os.makedirs("/verif/.build/snap", exist_ok=True)
             emu.cycle_count = cyc
-            emu._scheduler.reset(cycle_base=cyc)
-            emu._scheduler.next_mti = saved["next_mti"]
-            emu._scheduler.next_sti = saved["next_sti"]
-            emu._scheduler.enabled = bool(saved["enabled"])
-            emu.memory.write_byte(ISR_ADDR, isr)
+            emu.save_snapshot(path)
+            emu = _mk_py(mti, sti, enabled)
+            with contextlib.redirect_stdout(io.StringIO()):
+                emu.load_snapshot(path)
             out.append({"next_mti": emu._scheduler.next_mti, "next_sti": emu._scheduler.next_sti, "cycle": cyc})
         elif kind == "clr":
             emu.memory.write_byte(ISR_ADDR, emu.memory.read_byte(ISR_ADDR) & ~3 & 0xFF)
